@@ -88,7 +88,7 @@ class C10(core.Check):
     quick_n = 1500
     thorough_n = 20000
     rule = ("cases: (site s code) one real call with the socket raising that fault — ALL 10 sites x all codes exhaustively every run; (cli ...) a client history with faults; "
-            "(srv ...) a server with 1-4 connections, faults on a random subset at random call indices, plus every fault position of a fixed two-connection exchange x every connection-level code (exhaustive). "
+            "(cliw ...) the same with a wire log and peer resets between passes; (clic ...) connect/handshake histories that go on after a failed handshake; (realrst n) real client, peer sends n bytes then RST; (srv ...) a server with 1-4 connections, faults (listed and unlisted errnos) on a random subset at random call indices, receive scripts spread over several passes so that faults meet queued output, ANY exception out of service() counts, plus every fault position of a fixed two-connection exchange x every connection-level code (exhaustive). "
             "non-trivial = a hard fault was actually raised by a socket during the run, with >= 2 connections for srv; distinct by request line")
     trusted_base = ["translator harness/extract/tcp.py", "correspondence harness/props/C10.py (compiled model vs real Server/ServerTls/Client on scripted fake sockets)",
                     "fake socket harness/areas/tcp.py:FakeSock (after a hard fault getpeername()/shutdown() raise ENOTCONN like a reset socket)"]
